@@ -5,6 +5,7 @@
 //! It contains *no oracle*: every judgement is made by TLC on the specification.
 
 mod ct;
+mod digest;
 mod lex;
 mod lr;
 mod nlc;
@@ -37,6 +38,7 @@ fn main() {
         "ysrc" => ysrc::main(&args[2..]),
         "total" => total::main(&args[2..]),
         "ser" => ser::main(&args[2..]),
+        "digest" => digest::main(&args[2..]),
         "total-child" => total::child_main(),
         "width" => width::main(&args[2..]),
         x => {
